@@ -59,6 +59,10 @@ CHECKS = {
             "§6 C09",
             "kernel-evaluated call-site table (regenerated from the source) + proof over operation traces + runtime audit correspondence",
             "PARTIAL for the 'all code paths' clause: the table covers what is visible in the AST (it also proves there is no dynamic dispatch site), the runtime audit is sampling; effects inside C extensions that raise no audit event are invisible."),
+    "C11": ("Lean 4 termination theorems, each for *arbitrary* header / table / file contents: vdi_read_terminates, vhd_read_terminates, vhdx_read_terminates, hds_read_terminates, vmdk_getRuns_terminates, vmdk_compressed_run_terminates (induction on fuel with a progress >= 1 argument), chain_walk_terminates (Parallels snapshot graphs of any shape: pigeonhole over the shot list), vmtar_listing_terminates; every model loop is fuel-recursive with a distinct non-termination outcome, so the theorems say that outcome is unreachable; mutation streams (field values 0/1/max/sign/±1/self-reference in both endiannesses, truncations, corruption), deflate bombs with disagreeing header/footer, cyclic snapshot graphs, negative tar sizes, mutated Hyper-V files / envelopes / key safes: the real code under watchdog + tracemalloc bound, the Lean models on the same bytes must never answer nonterm",
+            "§6 C11",
+            "unbounded termination proofs (progress / pigeonhole) + fault-injection correspondence under a watchdog and an allocation bound",
+            "PARTIAL: real CPU time and memory of CPython, cstruct and zlib are measured, not proved. Not yet a theorem: progress of QCOW2 _yield_runs (the model reports nonterm on a zero-length run and the harness flags any nonterm from the driver), Hyper-V / envelope loops (see C16/C17). The inflate bound is a parameter of the models (max_length = allocation unit at every call site) and is exercised by the bomb cases."),
 }
 
 NOT_YET = {
